@@ -71,6 +71,12 @@ func checkC19(c *Ctx) {
 	c.Rule("C19-R20", "mouse callbacks are honoured only for the enabled modes: the all-modes default of EnableMouse is chosen by the absence of arguments, not by the or-ed flags being zero (an explicit empty set means none)")
 	c.Expect("C19-R20", 1)
 	checkMouseDefaultByAbsence(c, p, "C19-R20", "wScreen")
+	c.Rule("C19-R21", "key and mouse callbacks carry the modifiers the page reported: the modifier a callback ORs in under args[i].Bool() is the one webfiles/tcell.js passes at position i (shift, alt, ctrl, meta), also through a helper taking the booleans in another order")
+	c.Expect("C19-R21", 3)
+	checkWebModifiersAgreeWithThePage(c, p, "C19-R21")
+	c.Rule("C19-R22", "each cell reaches the page in its own style: the screen style stands in only for a cell whose whole style equals StyleDefault (underline colour and hyperlink are part of it), not for one with default colours and attributes")
+	c.Expect("C19-R22", 1)
+	checkScreenStyleOnlyForDefaultCells(c, p, "C19-R22")
 	// R1
 	tpkg := p.pkg("")
 	if tpkg == nil {
